@@ -313,12 +313,14 @@ func (p *ProjectRunner) getProcessesStateData(filter filterFn) error {
 func (p *ProjectRunner) addRunningProcess(process *Process) {
 	p.runProcMutex.Lock()
 	p.runningProcesses[process.getName()] = process
+	verifPoint(process, "reg_add")
 	p.runProcMutex.Unlock()
 }
 
 func (p *ProjectRunner) addDoneProcess(process *Process) {
 	p.doneProcMutex.Lock()
 	p.doneProcesses[process.getName()] = process
+	verifPoint(process, "done_add")
 	p.doneProcMutex.Unlock()
 }
 
@@ -326,8 +328,10 @@ func (p *ProjectRunner) getRunningProcess(name string) *Process {
 	p.runProcMutex.Lock()
 	defer p.runProcMutex.Unlock()
 	if runningProc, ok := p.runningProcesses[name]; ok {
+		verifPointR(p, "reg_get", name, runningProc)
 		return runningProc
 	}
+	verifPointR(p, "reg_get", name, nil)
 	return nil
 }
 
@@ -335,8 +339,10 @@ func (p *ProjectRunner) getDoneProcess(name string) *Process {
 	p.doneProcMutex.Lock()
 	defer p.doneProcMutex.Unlock()
 	if doneProc, ok := p.doneProcesses[name]; ok {
+		verifPointR(p, "done_get", name, doneProc)
 		return doneProc
 	}
+	verifPointR(p, "done_get", name, nil)
 	return nil
 }
 
@@ -351,6 +357,7 @@ func (p *ProjectRunner) removeRunningProcess(process *Process) {
 	p.runProcMutex.Lock()
 	if p.runningProcesses[process.getName()] == process {
 		delete(p.runningProcesses, process.getName())
+		verifPoint(process, "reg_del")
 	}
 	p.runProcMutex.Unlock()
 }
